@@ -65,11 +65,11 @@ func genRegStep(r *Rng, npool int) Step {
 	case 0:
 		return Step{Op: "reg", A: r.Intn(npool), B: r.Intn(20)}
 	case 1:
-		return Step{Op: "named", A: r.Intn(npool + 9)}
+		return Step{Op: "named", A: r.Intn(npool + 6 + 8)}
 	case 2:
 		return Step{Op: "names"}
 	}
-	return Step{Op: "setdeco", A: r.Intn(npool + 9)}
+	return Step{Op: "setdeco", A: r.Intn(npool + 6 + 8)}
 }
 
 func (engC17) Gen(r *Rng, s *Script, idx int, tier string) {
@@ -284,7 +284,7 @@ func (engC16) RaceRuns(tier string) int {
 	if tier == "thorough" {
 		return 20000
 	}
-	return 320
+	return 480
 }
 func (engC16) ProcessStateful() bool { return true }
 func (engC16) Rule() string {
@@ -319,6 +319,14 @@ func (engC16) Gen(r *Rng, s *Script, idx int, tier string) {
 		steps = append(steps, Step{Op: "new", A: r.Intn(7)})
 		if r.Chance(3, 4) {
 			steps = append(steps, Step{Op: "headers", Items: genItems(r, r.Range(1, 4), 2, &ctr)})
+		}
+		if r.Chance(2, 3) {
+			// values that independent tables typically have in common
+			var common []Item
+			for i := r.Range(1, 4); i > 0; i-- {
+				common = append(common, commonItems[r.Intn(len(commonItems))])
+			}
+			steps = append(steps, Step{Op: "rowItems", Items: common})
 		}
 		for i := r.Range(1, 6); i > 0; i-- {
 			switch r.Pick([]int{8, 2, 2}) {
@@ -366,6 +374,8 @@ func (engC16) Gen(r *Rng, s *Script, idx int, tier string) {
 	}
 	s.Schedule = genSchedule(r, total, len(s.Tasks))
 }
+
+var commonItems = []Item{{K: "i", N: 0}, {K: "i", N: 1}, {K: "i", N: 7}, {K: "i", N: 42}, {K: "b", N: 1}, {K: "b"}, {K: "n"}, {K: "s", S: ""}, {K: "s", S: "x"}, {K: "f", N: 2}, {K: "s", S: "a\"b"}}
 
 // taskResult is what one table-owning task produced.
 type taskResult struct {
